@@ -11,8 +11,8 @@ Builders == {"probe", "plane"}
 Potentials == {"atoms", "fp_mean", "fp_nomean", "atoms_ensemble", "crystal", "array"}
 ExitPlanes == {"none", "int", "tuple"}
 Detectors == {"waves", "annular", "flexible", "segmented", "pixelated", "two"}
-Scans == {"none", "custom", "line", "grid", "grid_uneven"}      \* grid_uneven: 3 x 5 positions, split unevenly by max_batch 2 and 4
-Batches == {"1", "2", "4", "auto"}
+Scans == {"none", "custom", "line", "grid", "grid_uneven"}      \* grid_uneven: 2 x 8 positions; max_batch 6 splits it as (2) x (3, 3, 2) (a remainder block of more than one position)
+Batches == {"1", "3", "6", "auto"}
 Schedulers == {"synchronous", "threads"}
 Variants == {<<b, s>> : b \in Batches, s \in Schedulers}
 
